@@ -123,6 +123,51 @@ static std::string g_err;
 static std::string g_outs;   // string reply (ok s:<text>) when non-empty
 static inline void outw(uint64_t v) { g_out.push_back(v); }
 
+// ---- allocation log (C18): the library's malloc/free are linker-wrapped, operator new[]/delete[]/delete replaced.
+// Only blocks allocated while logging is on are tracked; events: alloc = (1, family, bytes), release = (2, family, id)
+// with family 0 = malloc/free, 1 = new[]/delete[], 2 = scalar delete.
+#ifdef HARNESS_ALLOCLOG
+#include <map>
+#include <mutex>
+#include <new>
+extern "C" void *__real_malloc(size_t);
+extern "C" void __real_free(void *);
+static bool g_alog = false;
+static std::vector<uint64_t> g_aev;
+static std::map<void *, uint64_t> g_alive;
+static uint64_t g_aid = 0;
+static std::mutex g_amx;
+static thread_local bool g_ain = false;
+static void alog_alloc(void *p, int fam, size_t n) {
+    if (!g_alog || g_ain || !p) return;
+    g_ain = true;
+    { std::lock_guard<std::mutex> l(g_amx); g_alive[p] = g_aid++; g_aev.push_back(1); g_aev.push_back(fam); g_aev.push_back(n); }
+    g_ain = false;
+}
+static void alog_free(void *p, int fam) {
+    if (!g_alog || g_ain || !p) return;
+    g_ain = true;
+    { std::lock_guard<std::mutex> l(g_amx);
+      auto it = g_alive.find(p);
+      if (it != g_alive.end()) { g_aev.push_back(2); g_aev.push_back(fam); g_aev.push_back(it->second); g_alive.erase(it); }
+      else if (fam != 2 && false) { } }
+    g_ain = false;
+}
+extern "C" void *__wrap_malloc(size_t n) { void *p = __real_malloc(n); alog_alloc(p, 0, n); return p; }
+extern "C" void __wrap_free(void *p) { alog_free(p, 0); __real_free(p); }
+void *operator new[](size_t n) { void *p = __real_malloc(n ? n : 1); if (!p) throw std::bad_alloc(); alog_alloc(p, 1, n); return p; }
+void operator delete[](void *p) noexcept { alog_free(p, 1); __real_free(p); }
+void operator delete[](void *p, size_t) noexcept { alog_free(p, 1); __real_free(p); }
+void operator delete(void *p) noexcept { alog_free(p, 2); __real_free(p); }
+void operator delete(void *p, size_t) noexcept { alog_free(p, 2); __real_free(p); }
+static void alog_begin() { std::lock_guard<std::mutex> l(g_amx); g_aev.clear(); g_alive.clear(); g_aid = 0; g_alog = true; }
+static void alog_end() { g_alog = false; }
+#else
+static std::vector<uint64_t> g_aev;
+static void alog_begin() {}
+static void alog_end() {}
+#endif
+
 #include "gen_dispatch.inc"
 #include "hand_dispatch.inc"
 
